@@ -55,7 +55,15 @@ def run_history(cfg, calls):
                 cm.__enter__()
                 cms.append(cm)
             elif c["call"] == "exit":
-                cms.pop().__exit__(None, None, None)
+                if c.get("exc"):
+                    # an exception raised in the with-body travels through the scope and is caught outside
+                    err = ValueError("body failed")
+                    try:
+                        cms.pop().__exit__(ValueError, err, None)
+                    except ValueError:
+                        pass
+                else:
+                    cms.pop().__exit__(None, None, None)
             elif c["call"] == "freeze":
                 b.freeze()
             elif c["call"] == "as_memory_map":
@@ -99,7 +107,7 @@ def random_calls(r, cfg, length):
             if bad == "none":
                 depth += 1
         elif x < 0.82 and depth > 0:
-            out.append({"call": "exit", "bad": "none"})
+            out.append({"call": "exit", "bad": "none", "exc": int(r.random() < 0.35)})
             depth -= 1
         elif x < 0.86:
             out.append({"call": "freeze", "bad": "none"})
